@@ -171,9 +171,15 @@ def gen_formula(rng, names, depth, selfname=None):
         # multiplexer over small terms with overlapping supports (sparse diagrams)
         if len(names) < 4:
             return "and(%s,%s)" % (rng.pick(names), rng.pick(names))
-        sel, shared, x, y = rng.shuffle(names)[:4]
-        o1, o2 = rng.pick(["and", "or", "xor"]), rng.pick(["and", "or", "xor"])
-        return "or(and(%s,%s(%s,%s)),and(neg(%s),%s(%s,%s)))" % (sel, o1, shared, x, sel, o2, shared, y)
+        pool = rng.shuffle(names)
+        sel, rest = pool[0], pool[1:]
+        def term():
+            vs = rng.shuffle(rest)[: 1 + rng.below(min(3, len(rest)))]
+            t = vs[0] if rng.chance(2, 3) else "neg(%s)" % vs[0]
+            for v in vs[1:]:
+                t = "%s(%s,%s)" % (rng.pick(["and", "and", "or", "xor"]), t, v if rng.chance(2, 3) else "neg(%s)" % v)
+            return t
+        return "or(and(%s,%s),and(neg(%s),%s))" % (sel, term(), sel, term())
     op = ["and", "or", "imp", "xor", "iff", "and", "or"][k]
     return "%s(%s,%s)" % (op, gen_formula(rng, names, depth - 1, selfname), gen_formula(rng, names, depth - 1, selfname))
 
